@@ -16,6 +16,9 @@ Record vec3 := V3 { vx : Q; vy : Q; vz : Q }.
 Record mat3 := M3 { r0 : vec3; r1 : vec3; r2 : vec3 }.          (* rows *)
 Record n3 := N3 { n0 : nat; n1 : nat; n2 : nat }.
 
+(* value array: cell index i j k, component c *)
+Notation arr := (nat -> nat -> nat -> nat -> Q).
+
 Definition vnth (v : vec3) (d : nat) : Q :=
   match d with 0%nat => vx v | 1%nat => vy v | _ => vz v end.
 Definition nnth (n : n3) (d : nat) : nat :=
@@ -30,8 +33,31 @@ Definition vsub := vmap2 Qminus.
 Definition vscale (s : Q) (v : vec3) : vec3 := V3 (s * vx v) (s * vy v) (s * vz v).
 Definition vred (v : vec3) : vec3 := V3 (Qred (vx v)) (Qred (vy v)) (Qred (vz v)).
 
-(* [Qred] only normalises the representation (Qred q == q); it keeps vm_compute fast *)
-Definition dot (a b : vec3) : Q := Qred (vx a * vx b + vy a * vy b + vz a * vz b).
+Definition veq (a b : vec3) : Prop := vx a == vx b /\ vy a == vy b /\ vz a == vz b.
+
+(* [rnd] is a representation hook applied after the arithmetic steps of the code (each of which
+   rounds in binary64).  Every theorem is stated for a hook with [forall x, rnd x == x] (identity,
+   Qred); the correspondence checker evaluates the model with [rnd_bits 48] (48 significant
+   bits, relative error < 2^-46 per step, five orders of magnitude below the comparison tolerance) because vm_compute has no fast arithmetic on the 1000-bit rationals that the exact
+   evaluation of a four-step history produces. *)
+Definition rnd_bits (K : Z) (x : Q) : Q :=
+  let n := Qnum x in
+  let d := Zpos (Qden x) in
+  if (n =? 0)%Z then 0 else
+  (* keep 2K leading bits of numerator and denominator, then a K-bit quotient *)
+  let sn := Z.max 0 (Z.log2 (Z.abs n) - 2 * K) in
+  let sd := Z.max 0 (Z.log2 d - 2 * K) in
+  let n1 := Z.shiftr n sn in
+  let d1 := Z.shiftr d sd in
+  let s := (K - (Z.log2 (Z.abs n1) - Z.log2 d1))%Z in
+  let q := if (0 <=? s)%Z then Z.div (Z.shiftl n1 s) d1 else Z.div n1 (Z.shiftl d1 (- s)) in
+  let e := (sn - sd - s)%Z in                      (* x ~ q * 2^e *)
+  if (0 <=? e)%Z then inject_Z (Z.shiftl q e) else Qmake q (Z.to_pos (Z.shiftl 1 (- e))).
+
+Section Rnd.
+Variable rnd : Q -> Q.
+
+Definition dot (a b : vec3) : Q := rnd (vx a * vx b + vy a * vy b + vz a * vz b).
 Definition mapply (M : mat3) (v : vec3) : vec3 := V3 (dot (r0 M) v) (dot (r1 M) v) (dot (r2 M) v).
 Definition mcol (M : mat3) (d : nat) : vec3 := V3 (vnth (r0 M) d) (vnth (r1 M) d) (vnth (r2 M) d).
 Definition mtrans (M : mat3) : mat3 := M3 (mcol M 0) (mcol M 1) (mcol M 2).
@@ -40,12 +66,9 @@ Definition mmul (A B : mat3) : mat3 :=
   let Bt := mtrans B in M3 (mapply Bt (r0 A)) (mapply Bt (r1 A)) (mapply Bt (r2 A)).
 Definition mid : mat3 := M3 (V3 1 0 0) (V3 0 1 0) (V3 0 0 1).
 
-Definition veq (a b : vec3) : Prop := vx a == vx b /\ vy a == vy b /\ vz a == vz b.
 Definition meq (A B : mat3) : Prop := veq (r0 A) (r0 B) /\ veq (r1 A) (r1 B) /\ veq (r2 A) (r2 B).
 
 (* ---------- fields on a 3-d mesh ---------- *)
-(* value array: cell index i j k, component c *)
-Notation arr := (nat -> nat -> nat -> nat -> Q).
 Record fld := Fld { f_pmin : vec3; f_pmax : vec3; f_n : n3; f_val : arr }.
 
 Definition qnat (k : nat) : Q := inject_Z (Z.of_nat k).
@@ -80,11 +103,12 @@ Definition rotator_accepts (nvdim ndim : nat) (mapping : list (option nat)) : bo
   ((nvdim =? 1)%nat || match ordered_idx mapping with Some _ => true | None => false end).
 
 (* ---------- bounding box (field_rotator.py:312-319) ---------- *)
-Definition absdot (r e : vec3) : Q := Qred (Qabs (vx r) * vx e + Qabs (vy r) * vy e + Qabs (vz r) * vz e).
+Definition absdot (r e : vec3) : Q := rnd (Qabs (vx r) * vx e + Qabs (vy r) * vy e + Qabs (vz r) * vz e).
 Definition mabs_apply (M : mat3) (e : vec3) : vec3 := V3 (absdot (r0 M) e) (absdot (r1 M) e) (absdot (r2 M) e).
 Definition new_half (R : mat3) (f : fld) : vec3 := vscale (1 # 2) (mabs_apply R (edges f)).
-Definition new_pmin (R : mat3) (f : fld) : vec3 := vsub (centre f) (new_half R f).
-Definition new_pmax (R : mat3) (f : fld) : vec3 := vadd (centre f) (new_half R f).
+Definition vrnd (v : vec3) : vec3 := V3 (rnd (vx v)) (rnd (vy v)) (rnd (vz v)).
+Definition new_pmin (R : mat3) (f : fld) : vec3 := vrnd (vsub (centre f) (new_half R f)).
+Definition new_pmax (R : mat3) (f : fld) : vec3 := vrnd (vadd (centre f) (new_half R f)).
 
 (* ---------- default resolution (field_rotator.py:299-310) ---------- *)
 (* n_i = round(E_i / (L_i * a)),  L = |R| cell,  a = (dV / (L_x L_y L_z))^(1/3).  The cube root is
@@ -124,9 +148,9 @@ Definition rgi_tol : Q := 1 # 1000000000.
 (* coordinates relative to the region centre: [lo - c*tol, centres..., hi + c*tol] - ctr *)
 Definition grid1 (lo hi ctr : Q) (n : nat) : list Q :=
   let c := (hi - lo) / qnat n in
-  Qred (lo - c * rgi_tol - ctr)
-    :: map (fun k => Qred (lo + c / 2 + qnat k * c - ctr)) (iota 0 n)
-    ++ [Qred (hi + c * rgi_tol - ctr)].
+  rnd (lo - c * rgi_tol - ctr)
+    :: map (fun k => rnd (lo + c / 2 + qnat k * c - ctr)) (iota 0 n)
+    ++ [rnd (hi + c * rgi_tol - ctr)].
 
 (* number of leading grid entries strictly below x (= searchsorted on an ascending grid) *)
 Fixpoint count_lt (x : Q) (g : list Q) : nat :=
@@ -135,10 +159,10 @@ Fixpoint count_lt (x : Q) (g : list Q) : nat :=
 Definition locate (g : list Q) (x : Q) : nat * Q :=
   let i := Nat.min (count_lt x g - 1) (length g - 2) in
   let a := nth i g 0 in let b := nth (S i) g 0 in
-  (i, Qred ((x - a) / (b - a))).
+  (i, rnd ((x - a) / (b - a))).
 Definition inb1 (g : list Q) (x : Q) : bool := Qle_bool (hd 0 g) x && Qle_bool x (last g 0).
 
-Definition lerp (t a b : Q) : Q := (1 - t) * a + t * b.
+Definition lerp (t a b : Q) : Q := rnd ((1 - t) * a + t * b).
 Definition interp3 (W : nat -> nat -> nat -> Q) (lx ly lz : nat * Q) : Q :=
   let '(i, tx) := lx in let '(j, ty) := ly in let '(k, tz) := lz in
   lerp tx (lerp ty (lerp tz (W i j k) (W i j (S k))) (lerp tz (W i (S j) k) (W i (S j) (S k))))
@@ -149,11 +173,13 @@ Definition pad1 (n k : nat) : nat := Nat.min (k - 1) (n - 1).
 Definition padded (n : n3) (v : nat -> nat -> nat -> Q) : nat -> nat -> nat -> Q :=
   fun i j k => v (pad1 (n0 n) i) (pad1 (n1 n) j) (pad1 (n2 n) k).
 
-(* interpolant of one component at a point given relative to the centre *)
-Definition interp_at (gx gy gz : list Q) (n : n3) (v : nat -> nat -> nat -> Q) (p : vec3) : Q :=
+(* interpolant of every component (c) at a point given relative to the centre; the interval
+   search is shared by the components *)
+Definition interp_at (gx gy gz : list Q) (n : n3) (ra : arr) (p : vec3) : nat -> Q :=
   if inb1 gx (vx p) && inb1 gy (vy p) && inb1 gz (vz p)
-  then interp3 (padded n v) (locate gx (vx p)) (locate gy (vy p)) (locate gz (vz p))
-  else 0.
+  then let lx := locate gx (vx p) in let ly := locate gy (vy p) in let lz := locate gz (vz p) in
+       fun c => interp3 (padded n (fun a b d => ra a b d c)) lx ly lz
+  else fun _ => 0.
 
 (* ---------- the rotated field (field_rotator.py:178-211, 255-269) ---------- *)
 Definition cpt (lo hi : Q) (n i : nat) : Q := lo + (qnat i + (1 # 2)) * ((hi - lo) / qnat n).
@@ -163,7 +189,7 @@ Definition back_pos (orig : fld) (R : mat3) (n' : n3) (i j k : nat) : vec3 :=
   let lo' := new_pmin R orig in let hi' := new_pmax R orig in
   let y := V3 (cpt (vx lo') (vx hi') (n0 n') i) (cpt (vy lo') (vy hi') (n1 n') j)
               (cpt (vz lo') (vz hi') (n2 n') k) in
-  mapply (mtrans R) (vsub y (centre orig)).
+  mapply (mtrans R) (vrnd (vsub y (centre orig))).
 
 Definition grids (orig : fld) : list Q * list Q * list Q :=
   let c := centre orig in
@@ -174,8 +200,7 @@ Definition grids (orig : fld) : list Q * list Q * list Q :=
 Definition rotated_val (nv : nat) (perm : list nat) (orig : fld) (R : mat3) (n' : n3) : arr :=
   let '(gx, gy, gz) := grids orig in
   let ra := memo4 (f_n orig) nv (rot_arr nv R perm (f_val orig)) in
-  fun i j k c =>
-    interp_at gx gy gz (f_n orig) (fun a b d => ra a b d c) (back_pos orig R n' i j k).
+  fun i j k => interp_at gx gy gz (f_n orig) ra (back_pos orig R n' i j k).
 
 Definition rotated_field (nv : nat) (perm : list nat) (orig : fld) (R : mat3) (n' : n3) : fld :=
   Fld (new_pmin R orig) (new_pmax R orig) n' (rotated_val nv perm orig R n').
@@ -209,6 +234,8 @@ Fixpoint acc_rot (acc : mat3) (ops : list op) : mat3 :=
   | ORot M _ :: t => acc_rot (mmul M acc) t
   | OClear :: t => acc_rot mid t
   end.
+
+End Rnd.
 
 (* C-order list of the values of a field with nv components *)
 Definition fld_list (nv : nat) (f : fld) : list Q :=
